@@ -100,8 +100,11 @@ def main():
                 tags = "-tags gc_opt" if any("conn_matrix" in f for f in touched) else ("-tags poll_opt" if any("ultimate" in f for f in touched) else "")
                 # the multicast / bind-to-device tests need real interfaces: run them outside the namespace, the rest inside
                 cmd = ("go test -c -vet=off %s -o /tmp/%s.test . && mkdir -p /tmp/%s.run && cd /tmp/%s.run && "
-                       "unshare -n sh -c 'ip link set lo up; /tmp/%s.test -test.count=1 -test.timeout=25m -test.skip \"TestServeMulticast|TestBindToDevice|TestMulticastBind\"' 2>&1 | tail -25") % (tags, tag, tag, tag, tag)
+                       "unshare -n sh -c 'ip link set lo up; /tmp/%s.test -test.count=1 -test.timeout=25m -test.skip \"TestServeMulticast|TestBindToDevice|TestMulticastBind\"; echo SUITE_RC=$?' 2>&1 | tail -25") % (tags, tag, tag, tag, tag)
                 rc, out = sh(cmd, cwd=wt, timeout=2400)
+                # the exit status of the pipeline is tail's: the suite's own status is echoed into the output
+                m = re.search(r"SUITE_RC=(\d+)", out)
+                rc = int(m.group(1)) if m else 3
                 res["root_suite"] = {"rc": rc, "tags": tags, "tail": out[-1500:]}
                 sh("rm -rf /tmp/%s.test /tmp/%s.run" % (tag, tag))
     finally:
